@@ -133,6 +133,7 @@ structure ScramSt where
   iter : Int := 0
   authMessage : Bytes := []
   bindData : Bytes := []
+  attempt : Nat := 0              -- how many client-first messages this Auth object has produced (selects the nonce)
 deriving Repr, DecidableEq
 
 /-- the parts of SCRAM the model takes as given -/
@@ -140,10 +141,11 @@ structure ScramEnv where
   algorithm : Bytes
   user : Option Bytes             -- normalizeUsername result (escaping + PRECIS), none = error
   pass : Option Bytes             -- normalizeString(password), none = error
-  cnonce : Bytes                  -- base64 of the 24 random bytes of this attempt
+  cnonces : List Bytes            -- base64 of the 24 random bytes drawn for the 1st, 2nd, ... client-first message
   plus : Bool := false
-  bindType : Bytes := []          -- "tls-unique" | "tls-exporter"
-  bindBytes : Option Bytes := none -- channel binding data; none = TLS state missing / export failed
+  tls13 : Bool := false           -- connState.Version >= tls.VersionTLS13
+  tlsUnique : Bytes := []         -- connState.TLSUnique (empty = nil)
+  exporter : Option Bytes := none -- ExportKeyingMaterial("EXPORTER-Channel-Binding", nil, 32); none = error
   /-- (salt, iterations, authMessage) ↦ (base64 client proof, base64 server signature) -/
   crypto : Bytes → Int → Bytes → Bytes × Bytes
 
@@ -160,29 +162,34 @@ def atoi (b : Bytes) : Option Int :=
     let n : Nat := ds.foldl (fun acc d => acc * 10 + (d.toNat - 48)) 0
     some (if neg then -(n : Int) else n)
 
-def scramReset (_ : ScramSt) : ScramSt := {}
+/-- scramAuth.reset: everything but the (model-only) attempt counter -/
+def scramReset (st : ScramSt) : ScramSt := { attempt := st.attempt }
 
-def scramFirst (env : ScramEnv) (_ : ScramSt) : ScramSt × Except Nat (Option Bytes) :=
+def scramFirst (env : ScramEnv) (st0 : ScramSt) : ScramSt × Except Nat (Option Bytes) :=
   match env.user with
-  | none => ({}, .error errScram)
+  | none => (scramReset st0, .error errScram)
   | some user =>
-    let firstBare := sb "n=" ++ user ++ sb ",r=" ++ env.cnonce
-    let st : ScramSt := { nonce := env.cnonce, firstBare := firstBare }
+    let cnonce := (env.cnonces.drop st0.attempt).headD []
+    let firstBare := sb "n=" ++ user ++ sb ",r=" ++ cnonce
+    let st : ScramSt := { nonce := cnonce, firstBare := firstBare, attempt := st0.attempt + 1 }
     if env.plus then
-      match env.bindBytes with
+      -- tls-unique below TLS 1.3 when present, tls-exporter otherwise
+      let useExporter := env.tlsUnique.isEmpty || env.tls13
+      let cb : Option Bytes := if useExporter then env.exporter else some env.tlsUnique
+      match cb with
       | none => (st, .error errScram)
       | some cb =>
-        let hdr := sb "p=" ++ env.bindType ++ sb ",,"
+        let hdr := sb "p=" ++ (if useExporter then sb "tls-exporter" else sb "tls-unique") ++ sb ",,"
         ({ st with bindData := Base64.encode (hdr ++ cb) }, .ok (some (hdr ++ firstBare)))
     else (st, .ok (some (sb "n,," ++ firstBare)))
 
 def scramServerFirst (env : ScramEnv) (st : ScramSt) (fromServer : Bytes) : ScramSt × Except Nat (Option Bytes) :=
   match splitOnByte 44 fromServer with
   | p0 :: p1 :: p2 :: _ =>
-    if !hasPrefix p0 (sb "r=") || !hasPrefix p1 (sb "s=") || !hasPrefix p2 (sb "i=") then ({}, .error errScram)
+    if !hasPrefix p0 (sb "r=") || !hasPrefix p1 (sb "s=") || !hasPrefix p2 (sb "i=") then (scramReset st, .error errScram)
     else
       let combined := p0.drop 2
-      if st.nonce.isEmpty || !hasPrefix combined st.nonce then ({}, .error errScram)
+      if st.nonce.isEmpty || !hasPrefix combined st.nonce then (scramReset st, .error errScram)
       else
         match Base64.decode (p1.drop 2), atoi (p2.drop 2), env.pass with
         | some salt, some iter, some _ =>
@@ -190,23 +197,23 @@ def scramServerFirst (env : ScramEnv) (st : ScramSt) (fromServer : Bytes) : Scra
           let am := st.firstBare ++ [44] ++ fromServer ++ [44] ++ woProof
           let st' : ScramSt := { st with nonce := combined, salted := true, salt := salt, iter := iter, authMessage := am }
           (st', .ok (some (woProof ++ sb ",p=" ++ (env.crypto salt iter am).1)))
-        | _, _, _ => ({}, .error errScram)
-  | _ => ({}, .error errScram)
+        | _, _, _ => (scramReset st, .error errScram)
+  | _ => (scramReset st, .error errScram)
 
 def scramServerFinal (env : ScramEnv) (st : ScramSt) (fromServer : Bytes) : ScramSt × Except Nat (Option Bytes) :=
-  if !st.salted || st.authMessage.isEmpty then ({}, .error errScram)
+  if !st.salted || st.authMessage.isEmpty then (scramReset st, .error errScram)
   else if fromServer.drop 2 == (env.crypto st.salt st.iter st.authMessage).2 then (st, .ok (some []))
-  else ({}, .error errScram)
+  else (scramReset st, .error errScram)
 
 def scramMech (env : ScramEnv) : Mech ScramSt :=
   { init := {},
     start := fun st _ => (st, .ok (env.algorithm, none)),
     next := fun st fromServer more =>
       if more then
-        if fromServer.isEmpty then scramFirst env st
+        if fromServer.isEmpty then scramFirst env (scramReset st)
         else if hasPrefix fromServer (sb "r=") then scramServerFirst env st fromServer
         else if hasPrefix fromServer (sb "v=") then scramServerFinal env st fromServer
-        else ({}, .error errUnexpectedResponse)
+        else (scramReset st, .error errUnexpectedResponse)
       else (st, .ok none) }
 
 end GoMail.Smtp
